@@ -41,6 +41,9 @@ STR_POOL = [
     ('looks_json', '{"a": [1, 2]}'),
     ('spaces', '  lead and trail  '),
     ('colon', 'a: b, c'),
+    ('nonbmp2', '\U0001D11E\U0001F600'),
+    ('linesep', 'a\u2028b\u2029c\x85d'),
+    ('del', 'x\x7fy\x00z'),
 ]
 PRINTABLE_BMP = {'ascii', 'quote_backslash', 'latin1', 'empty', 'looks_int',
                  'looks_null', 'looks_bool', 'looks_float', 'looks_json',
@@ -48,7 +51,8 @@ PRINTABLE_BMP = {'ascii', 'quote_backslash', 'latin1', 'empty', 'looks_int',
 ENCODABLE = {n for n, _ in STR_POOL} - {'lone_surrogate'}
 INT_POOL = [0, -5, 7, 12345678901234567890, -2 ** 63]
 FLOAT_POOL = [1.5, -0.0, 1e+20, 1e-07, 5e-324, 1.7976931348623157e308,
-              123456.789, -2.5e-5, 100.0]
+              123456.789, -2.5e-5, 100.0, 1.05e+20, 2.0000000000000004e-16,
+              -1.0625e-05, 1.0e16, 3.0000000000000004e+22, 0.1 + 0.2]
 BOOL_POOL = [True, False]
 TS_POOL = [datetime.date(2020, 1, 2),
            datetime.datetime(2021, 12, 31, 23, 59, 58),
@@ -177,6 +181,10 @@ def concretise(evs, variant):
         counters[kind] += 1 + variant // len(pool)
         if kind == 'str':
             vals.append(('str', pool[i][1], pool[i][0]))
+        elif kind == 'ts':
+            # a fresh object per occurrence: the same date object twice would
+            # be a shared object (an alias), which is outside the domain
+            vals.append((kind, pool[i].replace(), None))
         else:
             vals.append((kind, pool[i], None))
     return vals
@@ -390,7 +398,11 @@ def _chunk(args):
     for i, c in enumerate(cases):
         if i % 50 == 0:
             failing_dump()
-        errs, n = replay_case(c, variants, i % sink_every == 0)
+        # rotate through the scalar pools so that every string / number class
+        # meets every emitter behaviour somewhere in the run
+        h = (hash(json.dumps(c['evs'])) + c['req']) % 997
+        vs = [(v + h + 7 * k) % 240 for k, v in enumerate(variants)]
+        errs, n = replay_case(c, vs, i % sink_every == 0)
         res.append((errs, n))
     return res
 
